@@ -607,7 +607,14 @@ func s5(w *World, r *Report) {
 			}
 			good := strings.Contains(v, "p0."+f.Name()) || strings.Contains(v, "p0.X"+f.Name())
 			if f.Name() == "Payload" {
-				good = strings.HasPrefix(v, "phi(") || strings.Contains(v, "TrxPayload")
+				// decided by the payload table: the wire type selects the payload object
+				n := 0
+				for _, t := range w.payloadTable(r) {
+					if strings.HasPrefix(t, "*types.TrxPayload") {
+						n++
+					}
+				}
+				good = n >= 6
 			}
 			r.Check(good, "S-5", "fromProto:field:"+f.Name(), "filled from the like-named wire field", "Trx."+f.Name()+" is filled from "+v+", not from the like-named wire field", fnSite(w, fn))
 		}
